@@ -439,6 +439,7 @@ func BuildReal(c *Case) (*Real, []string) {
 			r.number()
 			if err == nil && ec != nil {
 				ec.uid = r.uids[cmd]
+				r.execs = append(r.execs, ec)
 			}
 		case "setcmd":
 			switch b.Attr {
